@@ -255,7 +255,7 @@ Section Rule.
       set (fb := forget_replaced hc b ress) in *.
       assert (map fst fb = r_targets r) as Hfst1 by (unfold fb; rewrite C01Hist.forget_replaced_fst; exact Hfst).
       assert (blob_ok w1 fb) as Hb1.
-      { unfold fb. apply InvProofs.forget_replaced_ok; [apply Hinv1|]. exact (blob_steps T teqb hc teqb_spec _ _ _ Hinv Hs1 Hb). }
+      { unfold fb. apply InvProofs.forget_replaced_ok; [exact teqb_spec|]. exact (blob_steps T teqb hc teqb_spec _ _ _ Hinv Hs1 Hb). }
       destruct (needs_rebuild ress) eqn:Enr.
       - destruct Hhr as (-> & -> & Hres).
         destruct (Htrue w1 cs Hsrc1 eq_refl) as [Hv F2]. rewrite Hv in Hres.
@@ -313,7 +313,7 @@ Section Rule.
       set (fb := forget_replaced hc b ress) in *.
       assert (map fst fb = r_targets r) as Hfst1 by (unfold fb; rewrite C01Hist.forget_replaced_fst; exact Hfst).
       assert (blob_ok w1 fb) as Hb1.
-      { unfold fb. apply InvProofs.forget_replaced_ok; [apply Hinv1|]. exact (blob_steps T teqb hc teqb_spec _ _ _ Hinv Hs1 Hb). }
+      { unfold fb. apply InvProofs.forget_replaced_ok; [exact teqb_spec|]. exact (blob_steps T teqb hc teqb_spec _ _ _ Hinv Hs1 Hb). }
       assert (needs_rebuild ress = true) as Enr.
       { rewrite Eress. destruct b as [|x b0]; [cbn in Hfst; congruence | reflexivity]. }
       rewrite Enr in Hhr. destruct Hhr as (-> & -> & Hres).
